@@ -179,6 +179,9 @@ pub fn gen_case(r: &mut Rng, out: &mut String) {
         writeln!(out, "from_lsb0 b0 {} {}", off, h).unwrap();
     } else {
         writeln!(out, "new b0").unwrap();
+        if r.chance(1, 12) {
+            writeln!(out, "extend b0{}", super::common::many_chunk_values(r)).unwrap();
+        }
     }
     observe(out, &keys);
     for (i, &k) in keys.iter().enumerate() {
